@@ -106,6 +106,12 @@ func collectDeclDependencies(d Decl) []string {
 	case *StructDecl:
 		for _, m := range d.Members {
 			collectTypeRefs(m.Type, add)
+			// @align(K) / @size(K) may name module-scope constants.
+			for _, a := range m.Attributes {
+				for _, arg := range a.Args {
+					collectExprDeps(arg, nil, add)
+				}
+			}
 		}
 	case *FunctionDecl:
 		// Attribute arguments are constant expressions that may name module-scope
